@@ -103,7 +103,7 @@ func init() {
 		return strings.Join(out, ",")
 	}
 	register(&Prop{ID: "C09", Gen: genC09, Oracle: oracleC09,
-		Rule: "record sequences of length 0-64 (thorough 0-400) with synthetic, random and adversarial contents (records that look like interior nodes 0x01||h||h, empty, duplicates): whole store after one-at-a-time appends, tree hash for every m<=n (and m>n: reader error); (level, offset) coordinates up to 2^40 and boundary probes near 2^61/2^62 for index/split/count; the int64 edge of the layout: for every level 0..62 the offsets 2^(62-level)-{2,1} (the last coordinates whose position fits: positions 2^63-64..2^63-2), (0,2^62) -> MaxInt64, every position 2^63-2-k (k<200; not MaxInt64 itself, observation O11), sizes 2^62-{2,1,0}; tree heads, records, hashes and JSON through their text codecs: valid, one mutation from valid, boundary (int64 edges, leading zeros, signs, 1e6 length, CR/LF inside base64, non-canonical trailing bits, invalid UTF-8, control characters, blank lines) and random; non-trivial = a well-formed input or one mutation from one; distinct by op line"})
+		Rule: "record sequences of length 0-64 (thorough 0-400) with synthetic, random and adversarial contents (records that look like interior nodes 0x01||h||h, empty, duplicates): whole store after one-at-a-time appends, tree hash for every m<=n (and m>n: reader error); (level, offset) coordinates up to 2^40 and boundary probes near 2^61/2^62 for index/split/count; the int64 edge of the layout: for every level 0..62 the offsets 2^(62-level)-{2,1} (the last coordinates whose position fits: positions 2^63-64..2^63-2), (0,2^62) -> MaxInt64, every position 2^63-2-k (k<200; not MaxInt64 itself, observation O11), sizes 2^62-{2,1,0}; tree heads, records, hashes and JSON through their text codecs: valid, one mutation from valid, boundary (int64 edges, leading zeros, signs, 1e6 length for tree heads, record messages whose text or remainder is 1e6-1..1e6+1 / 2e6 bytes long and a 1.5 MB run of concatenated records (oracle: every text length and every total length 999990..1000100, 2^16..2^21 +-1, 2e6, 3e6, runs of 1.2 and 2.2 MB parsed record by record), CR/LF inside base64, non-canonical trailing bits, invalid UTF-8, control characters, blank lines) and random; non-trivial = a well-formed input or one mutation from one; distinct by op line"})
 }
 
 func c09RandBytes(r *Rand, n int) string {
@@ -484,6 +484,8 @@ func genC09(g *Gen, n int) {
 	for _, total := range []int{1000000, 1000001} {
 		g.Emit("tlog.parsetree "+hx(base+strings.Repeat("x", total-len(base))), true, "parsetree-1e6")
 	}
+	// LARGE record messages (util_c09big.go): a dozen ops of 2-6 MB each, hand model only; own random stream
+	genC09Big(g)
 }
 
 // ---- oracle: the property itself on the implementation alone
@@ -536,12 +538,12 @@ func c09RecordOracle(g *Gen, id int64, text, rest string) {
 	if valid {
 		g.Case("codec-valid-text")
 		if err != nil {
-			g.Fail("FormatRecord rejects a record text that is valid by the documented rule", fmt.Sprintf("text=%q", text), fop)
+			g.Fail("FormatRecord rejects a record text that is valid by the documented rule", "text="+c09Abbrev(text), fop)
 		}
 		hand := fmt.Sprintf("%d\n%s\n%s", id, text, rest)
 		id2, text2, rest2, err2 := tlog.ParseRecord([]byte(hand))
 		if err2 != nil || id2 != id || string(text2) != text || string(rest2) != rest {
-			g.Fail("ParseRecord does not return a well-formed record with valid text unchanged", fmt.Sprintf("id=%d text=%q rest=%q err=%v", id, text, rest, err2), "tlog.parserecord "+hx(hand))
+			g.Fail("ParseRecord does not return a well-formed record with valid text unchanged", fmt.Sprintf("id=%d text=%s rest=%s err=%v", id, c09Abbrev(text), c09Abbrev(rest), err2), "tlog.parserecord "+hx(hand))
 		}
 	} else {
 		g.Case("codec-invalid-text")
@@ -549,7 +551,7 @@ func c09RecordOracle(g *Gen, id int64, text, rest string) {
 	if err == nil {
 		id2, text2, rest2, err2 := tlog.ParseRecord(append(append([]byte{}, msg...), rest...))
 		if err2 != nil || id2 != id || !bytes.Equal(text2, []byte(text)) || !bytes.Equal(rest2, []byte(rest)) {
-			g.Fail("ParseRecord(FormatRecord(id,text)+rest) != (id,text,rest)", fmt.Sprintf("id=%d text=%q rest=%q err=%v", id, text, rest, err2), fop, "tlog.parserecord "+hx(string(msg)+rest))
+			g.Fail("ParseRecord(FormatRecord(id,text)+rest) != (id,text,rest)", fmt.Sprintf("id=%d text=%s rest=%s err=%v", id, c09Abbrev(text), c09Abbrev(rest), err2), fop, "tlog.parserecord "+hx(string(msg)+rest))
 		}
 	}
 }
@@ -562,6 +564,9 @@ func oracleC09(g *Gen, n int) {
 	}
 	// (00) the int64 edge of the layout against the first-principles formula (util_c09edge.go; deterministic)
 	c09EdgeOracle(g)
+	// (01) LARGE record messages: texts and remainders around 1e6 / 2^k bytes and beyond, long runs of concatenated
+	// records (util_c09big.go; own random stream, the streams below do not shift)
+	c09BigOracle(g)
 	// (0) every boundary length: leaf hash, near-miss pairs, and a small log containing such a record
 	var sweep [][]string
 	for _, L := range c09Lens {
